@@ -61,6 +61,11 @@ type Term struct {
 	Msg  string `json:"msg"`
 }
 
+type SH struct {
+	I   int  `json:"i"`
+	Err bool `json:"err"`
+}
+
 type SR struct {
 	I int `json:"i"`
 	V int `json:"v"` // >0 message, 0 EOF, -1 error
@@ -73,6 +78,7 @@ type Transcript struct {
 	Hdrs     []MD     `json:"hdrs"`  // result of every client header read, in order
 	Trls     []MD     `json:"trls"`  // result of every client trailer read, in order
 	Srecv    []SR     `json:"srecv"` // result of every server receive
+	Shdr     []SH     `json:"shdr"`  // whether each SetHeader of the handler reported an error
 	Reqmd    int      `json:"reqmd"` // x-req as seen by the handler (-1: handler never ran)
 	Alias    []string `json:"alias"` // copy-semantics failures
 	Hang     []int    `json:"hang"`  // steps whose op did not complete in time (-1: handler never returned)
@@ -83,7 +89,7 @@ type Transcript struct {
 }
 
 func emptyTranscript() Transcript {
-	return Transcript{Msgs: []int{}, Hdrs: []MD{}, Trls: []MD{}, Srecv: []SR{}, Alias: []string{}, Hang: []int{}, Ops: []string{}, Reqmd: -1}
+	return Transcript{Msgs: []int{}, Hdrs: []MD{}, Trls: []MD{}, Srecv: []SR{}, Shdr: []SH{}, Alias: []string{}, Hang: []int{}, Ops: []string{}, Reqmd: -1}
 }
 
 // outcome names an error the way Wrap.tla does: io.EOF is the OK end of a stream, context
@@ -473,6 +479,9 @@ func runOnce(e *env, tr string, conn grpc.ClientConnInterface, c Case, rng *rand
 						v = 0
 					}
 					t.Srecv = append(t.Srecv, SR{I: i, V: v})
+				}
+				if r.Op == "sethdr" {
+					t.Shdr = append(t.Shdr, SH{I: i, Err: r.Kind == "err"})
 				}
 				if r.Kind == "hang" {
 					t.Hang = append(t.Hang, i)
